@@ -39,8 +39,8 @@ fn alpha(name: &str) -> Vec<MOp> {
 
 fn spaces(tier: Tier) -> Vec<(&'static str, u32)> {
     match tier {
-        Tier::Quick => vec![("MICRO", 2), ("SHARE", 2), ("CORE", 2), ("BIND", 2), ("MICRO", 3), ("SHARE", 3), ("SAME", 2), ("SAME", 3), ("SELFX", 2), ("SELFX", 3), ("CORE", 3), ("MICRO", 4)],
-        Tier::Thorough => vec![("MICRO", 2), ("SHARE", 2), ("CORE", 2), ("BIND", 2), ("SELF", 2), ("MICRO", 3), ("SHARE", 3), ("SAME", 2), ("SAME", 3), ("SELFX", 2), ("SELFX", 3), ("A0", 2), ("CORE", 3), ("MICRO", 4), ("A1", 2), ("SHARE", 4), ("SAME", 4), ("SELFX", 4)],
+        Tier::Quick => vec![("MICRO", 2), ("SHARE", 2), ("CORE", 2), ("BIND", 2), ("MICRO", 3), ("SHARE", 3), ("SAME", 2), ("SAME", 3), ("SELFX", 2), ("SELFX", 3), ("CASC", 2), ("CASC", 3), ("CORE", 3), ("MICRO", 4)],
+        Tier::Thorough => vec![("MICRO", 2), ("SHARE", 2), ("CORE", 2), ("BIND", 2), ("SELF", 2), ("MICRO", 3), ("SHARE", 3), ("SAME", 2), ("SAME", 3), ("SELFX", 2), ("SELFX", 3), ("A0", 2), ("CORE", 3), ("MICRO", 4), ("A1", 2), ("SHARE", 4), ("SAME", 4), ("SELFX", 4), ("CASC", 2), ("CASC", 3), ("CASC", 4)],
     }
 }
 
@@ -57,7 +57,7 @@ fn decode(a: &[MOp], depth: u32, mut idx: u64) -> Vec<MOp> {
 type Fail = (String, String, String);
 
 /// Bellman-Ford style least fixpoint of best[i] = min over e-nodes of cost(node, best)
-fn bellman<CF: CostFunction<Sym, Cost = u64>>(eg: &EGraph<Sym>, cf: &CF) -> HashMap<Id, u64> {
+fn bellman<N: Analysis<Sym>, CF: CostFunction<Sym, Cost = u64>>(eg: &EGraph<Sym, N>, cf: &CF) -> HashMap<Id, u64> {
     let ids = eg.ids();
     let mut best: HashMap<Id, u64> = HashMap::new();
     loop {
@@ -143,7 +143,7 @@ fn injections(k: usize, pool: &[Slot]) -> Vec<Vec<Slot>> {
     out
 }
 
-fn check_cf<CF: CostFunction<Sym, Cost = u64>>(eg: &EGraph<Sym>, cf: CF, cfname: &str, rec: &[(T, AppliedId)], fails: &mut Vec<Fail>, evals: &mut u64, goals: &mut u64) {
+fn check_cf<N: Analysis<Sym>, CF: CostFunction<Sym, Cost = u64>>(eg: &EGraph<Sym, N>, cf: CF, cfname: &str, rec: &[(T, AppliedId)], fails: &mut Vec<Fail>, evals: &mut u64, goals: &mut u64) {
     let oracle = bellman(eg, &cf);
     let ex = match catch(|| Extractor::<Sym, CF>::new(eg, cf)) {
         Ok(e) => e,
@@ -247,15 +247,15 @@ fn ex_cost(t: &RecExpr<Sym>, cfname: &str) -> u64 {
     }
 }
 
-fn run(ops: &[MOp]) -> Result<(Vec<Fail>, u64, u64, u64), String> {
+fn run<N: Analysis<Sym> + Default + 'static>(ops: &[MOp]) -> Result<(Vec<Fail>, u64, u64, u64), String> {
     let nm = Naming::Numeric;
-    let mut eg = EGraph::<Sym>::default();
+    let mut eg = EGraph::<Sym, N>::default();
     let mut rec: Vec<(T, AppliedId)> = Vec::new();
     for op in ops {
         catch(|| match op {
             MOp::H(o) => apply_op(&mut eg, o, nm, &mut rec),
             MOp::Rw(i) => {
-                apply_rewrites(&mut eg, &mk_rules(*i));
+                apply_rewrites(&mut eg, &crate::props::mono::mk_rules_n::<N>(*i));
             }
         })?;
     }
@@ -285,7 +285,7 @@ fn run(ops: &[MOp]) -> Result<(Vec<Fail>, u64, u64, u64), String> {
     }
     for (i, a) in conv_queries {
         evals += 1;
-        match catch(|| (ast_size_extract(&a, &eg), extract::<Sym, (), Weighted>(&a, &eg))) {
+        match catch(|| (ast_size_extract(&a, &eg), extract::<Sym, N, Weighted>(&a, &eg))) {
             Err(site) => fails.push(("extract-panic".into(), format!("extract()/ast_size_extract() panicked: {site}"), format!("class {i:?}"))),
             Ok((t1, t2)) => {
                 for t in [t1, t2] {
@@ -322,7 +322,7 @@ impl Prop for ExtractProp {
         vec!["cyclic_class", "class_whose_node_has_redundant_slot", "symmetric_class"]
     }
     fn rule(&self) -> String {
-        "Every ordered sequence of the stated length over union/insert operations plus four rewrite-iteration operations (one of them with patterns that repeat a slot) is executed; on the resulting e-graph, for the cost functions AstSize, depth-weighted size (1+2*sum) and a per-operator weighted size: Extractor::new, then for every live class the identity invocation and every injective renaming of its arguments into a 4-slot pool (numeric, textual, $0), every permutation of the class's own parameter names and a shift along them: extract returns, the result looks up to an invocation eq to the query, cost_rec(result) == get_best_cost == Bellman-Ford least fixpoint over eg.enodes, every free slot of the result is a query argument or a fresh slot above the pre-call watermark; also for every stale handle and through extract()/ast_size_extract() (identity, renamed and rotated invocations). Non-trivial = execution that did not abort.".into()
+        "Every ordered sequence of the stated length over union/insert operations plus four rewrite-iteration operations (one of them with patterns that repeat a slot) is executed; on the resulting e-graph, for the cost functions AstSize, depth-weighted size (1+2*sum) and a per-operator weighted size: Extractor::new, then for every live class the identity invocation and every injective renaming of its arguments into a 4-slot pool (numeric, textual, $0), every permutation of the class's own parameter names and a shift along them: extract returns, the result looks up to an invocation eq to the query, cost_rec(result) == get_best_cost == Bellman-Ford least fixpoint over eg.enodes, every free slot of the result is a query argument or a fresh slot above the pre-call watermark; the small alphabets (MICRO SHARE SAME CASC, CORE depth 2) a second time on an e-graph with the min-size analysis attached; also for every stale handle and through extract()/ast_size_extract() (identity, renamed and rotated invocations). Non-trivial = execution that did not abort.".into()
     }
     fn assumptions(&self) -> Vec<String> {
         vec!["histories that panic before extraction are reported as a no-answer failure (the same defect is also reported by C08 where its exploration reaches it)".into(), "cost functions are strictly monotone with u64 costs".into()]
@@ -339,21 +339,29 @@ impl Prop for ExtractProp {
         out.transitions = ops.len() as u64;
         let ops2 = ops.clone();
         let opsv: Vec<String> = ops.iter().map(|o| o.show()).collect();
-        match fresh_thread(move || run(&ops2)) {
-            Err(site) | Ok(Err(site)) => {
-                out.aborted.push(site);
-                out.outcomes.push("aborted".into());
-            }
-            Ok(Ok((fails, evals, goals, f))) => {
-                out.evaluations = evals;
-                out.goals = goals;
-                out.fps.push(f);
-                out.nontrivial = 1;
-                out.outcomes.push(if fails.is_empty() { format!("optimal(goals={goals})") } else { fails[0].0.clone() });
-                let mut seen = BTreeSet::new();
-                for (k, key, dt) in fails {
-                    if seen.insert((k.clone(), key.clone())) && seen.len() <= 8 {
-                        out.fail(&k, key, format!("{dt}; history: {}", opsv.join(" ; ")), &opsv);
+        // the small alphabets a second time on an e-graph with an analysis attached (a datum that changes on unions makes
+        // the rebuild take other paths: analysis-only work-list entries next to full ones)
+        let analysis_too = ["MICRO", "SHARE", "SAME", "CASC"].contains(&a) || (a == "CORE" && d == 2);
+        let _ = ops2;
+        for pass in 0..(if analysis_too { 2 } else { 1 }) {
+            let ops2 = ops.clone();
+            let tag = if pass == 1 { "[with analysis] " } else { "" };
+            match fresh_thread(move || if pass == 1 { run::<crate::props::inv::MinSizeReading>(&ops2) } else { run::<()>(&ops2) }) {
+                Err(site) | Ok(Err(site)) => {
+                    out.aborted.push(site);
+                    out.outcomes.push("aborted".into());
+                }
+                Ok(Ok((fails, evals, goals, f))) => {
+                    out.evaluations += evals;
+                    out.goals |= goals;
+                    out.fps.push(f);
+                    out.nontrivial = 1;
+                    out.outcomes.push(if fails.is_empty() { format!("optimal(goals={goals})") } else { fails[0].0.clone() });
+                    let mut seen = BTreeSet::new();
+                    for (k, key, dt) in fails {
+                        if seen.insert((k.clone(), key.clone())) && seen.len() <= 8 {
+                            out.fail(&k, format!("{tag}{key}"), format!("{dt}; history: {}", opsv.join(" ; ")), &opsv);
+                        }
                     }
                 }
             }
